@@ -140,7 +140,9 @@ pub fn covers(content: &str, json: &Value) -> Result<(), String> {
             Value::Number(n) => {
               let want = canon_num(&n.to_string());
               let mut done = false;
-              for allow_suffix in [false, true] {
+              // three passes: tokens spelled without leading zeros first (so that an amount is not
+              // matched to digits of a date such as "0727"), then any token, then suffixes of tokens
+              for (allow_suffix, allow_leading_zero) in [(false, false), (false, true), (true, true)] {
                 if done {
                     break;
                 }
@@ -165,7 +167,8 @@ pub fn covers(content: &str, json: &Value) -> Result<(), String> {
                         let tokstr: String = text[st..en].iter().collect();
                         for cut in 0..(if allow_suffix { i - st } else { 1 }) {
                             let t: String = tokstr.chars().skip(cut).collect();
-                            if canon_num(&t.replace(',', ".")) == want {
+                            let lz = t.len() > 1 && t.starts_with('0') && !t.starts_with("0,");
+                            if (allow_leading_zero || !lz) && canon_num(&t.replace(',', ".")) == want {
                                 hit = Some((st + cut, en));
                                 break;
                             }
@@ -173,7 +176,8 @@ pub fn covers(content: &str, json: &Value) -> Result<(), String> {
                         if hit.is_none() && en > i {
                             // integer part only (e.g. "12/345": handled by tokens; "5USD": handled above)
                             let t: String = text[st..i].iter().collect();
-                            if canon_num(&t) == want {
+                            let lz = t.len() > 1 && t.starts_with('0');
+                            if (allow_leading_zero || !lz) && canon_num(&t) == want {
                                 hit = Some((st, i));
                             }
                         }
